@@ -4,6 +4,7 @@ import (
 	"fmt"
 	"go/constant"
 	"go/token"
+	"go/types"
 	"sort"
 	"strings"
 
@@ -127,68 +128,223 @@ func runStack(r *core.Run) {
 	}
 }
 
+// cssModel: a role-based view of css.Parser, independent of the names of unexported fields and functions.
+//
+//	stack     the field of type []State (State is the state-function type)
+//	errField  the string field that carries the parse error message
+//	pushed    the state functions that can be appended to the stack outside the constructor (resolved through
+//	          helper results, phis and parameters)
+//	bottom    the state functions the constructor installs
+//	ctx       for a function that pops: the pushed state functions on whose behalf it runs (itself, or every
+//	          state function that calls it directly or through other helpers); empty if it may run for a bottom state
+type cssModel struct {
+	stack, errField string
+	fns             []*ssa.Function
+	ctor            *ssa.Function
+	ops             map[*ssa.Function][]stackOp
+	pushTargets     map[ssa.Instruction][]*ssa.Function
+	pushed, bottom  map[*ssa.Function]bool
+}
+
+var cssModels = map[*core.Program]*cssModel{}
+
+func cssModelOf(r *core.Run) *cssModel {
+	if m, ok := cssModels[r.Prog]; ok {
+		return m
+	}
+	m := &cssModel{ops: map[*ssa.Function][]stackOp{}, pushTargets: map[ssa.Instruction][]*ssa.Function{}, pushed: map[*ssa.Function]bool{}, bottom: map[*ssa.Function]bool{}}
+	cssModels[r.Prog] = m
+	pk := r.Prog.Pkg("css")
+	if pk == nil {
+		return m
+	}
+	if tn, ok := pk.Types.Scope().Lookup("Parser").(*types.TypeName); ok {
+		if st, ok := tn.Type().Underlying().(*types.Struct); ok {
+			var strs []string
+			for i := 0; i < st.NumFields(); i++ {
+				f := st.Field(i)
+				if sl, ok := f.Type().Underlying().(*types.Slice); ok {
+					if n, ok := sl.Elem().(*types.Named); ok && n.Obj().Name() == "State" {
+						m.stack = f.Name()
+					}
+				}
+				if b, ok := f.Type().Underlying().(*types.Basic); ok && b.Kind() == types.String {
+					strs = append(strs, f.Name())
+				}
+			}
+			if len(strs) == 1 {
+				m.errField = strs[0]
+			}
+		}
+	}
+	m.fns = cssParserFuncs(r)
+	for _, fn := range m.fns {
+		if fn.Name() == "NewParser" {
+			m.ctor = fn
+		}
+	}
+	if m.stack == "" {
+		return m
+	}
+	for _, fn := range m.fns {
+		m.ops[fn] = stackOps(fn, "css.Parser", m.stack)
+		for _, op := range m.ops[fn] {
+			if op.kind != "push" {
+				continue
+			}
+			ts := resolveStateFuncs(r, op.val, 0)
+			m.pushTargets[op.in] = ts
+			for _, t := range ts {
+				if fn == m.ctor {
+					m.bottom[t] = true
+				} else {
+					m.pushed[t] = true
+				}
+			}
+		}
+	}
+	return m
+}
+
+// resolveStateFuncs: the functions a value of the state-function type can denote; nil if not fully resolved.
+func resolveStateFuncs(r *core.Run, v ssa.Value, depth int) []*ssa.Function {
+	if v == nil || depth > 4 {
+		return nil
+	}
+	switch x := v.(type) {
+	case *ssa.Function:
+		return []*ssa.Function{thunkTarget(x)}
+	case *ssa.MakeClosure:
+		if f, ok := x.Fn.(*ssa.Function); ok {
+			return []*ssa.Function{thunkTarget(f)}
+		}
+	case *ssa.ChangeType:
+		return resolveStateFuncs(r, x.X, depth+1)
+	case *ssa.Phi:
+		var out []*ssa.Function
+		for _, e := range x.Edges {
+			ts := resolveStateFuncs(r, e, depth+1)
+			if ts == nil {
+				return nil
+			}
+			out = append(out, ts...)
+		}
+		return out
+	case *ssa.Call:
+		g := x.Call.StaticCallee()
+		if g == nil || len(g.Blocks) == 0 || !core.InModule(fnPkg(g)) {
+			return nil
+		}
+		var out []*ssa.Function
+		for _, b := range g.Blocks {
+			if ret, ok := lastInstr(b).(*ssa.Return); ok && len(ret.Results) == 1 {
+				ts := resolveStateFuncs(r, ret.Results[0], depth+1)
+				if ts == nil {
+					return nil
+				}
+				out = append(out, ts...)
+			}
+		}
+		return out
+	case *ssa.Parameter:
+		args, ok := argsOfParam(r, x)
+		if !ok {
+			return nil
+		}
+		var out []*ssa.Function
+		for _, a := range args {
+			ts := resolveStateFuncs(r, a, depth+1)
+			if ts == nil {
+				return nil
+			}
+			out = append(out, ts...)
+		}
+		return out
+	}
+	return nil
+}
+
+// ctxOf: the pushed state functions on whose behalf fn runs; ok=false if it can also run for a bottom state or from outside.
+func (m *cssModel) ctxOf(r *core.Run, fn *ssa.Function, depth int) (map[*ssa.Function]bool, bool) {
+	if m.pushed[fn] {
+		return map[*ssa.Function]bool{fn: true}, !m.bottom[fn]
+	}
+	if m.bottom[fn] || depth > 3 || fn.Object() != nil && fn.Object().Exported() {
+		return nil, false
+	}
+	sites := callSitesOf(r, fn)
+	if len(sites) == 0 {
+		return nil, false
+	}
+	out := map[*ssa.Function]bool{}
+	for _, c := range sites {
+		cs, ok := m.ctxOf(r, c.Parent(), depth+1)
+		if !ok {
+			return nil, false
+		}
+		for f := range cs {
+			out[f] = true
+		}
+	}
+	return out, true
+}
+
 func stackCSS(r *core.Run) {
-	fns := cssParserFuncs(r)
-	if len(fns) == 0 {
-		r.BrokenAnchor("css.Parser methods")
+	m := cssModelOf(r)
+	if len(m.fns) == 0 || m.stack == "" || m.ctor == nil {
+		r.BrokenAnchor("css.Parser (methods, constructor, field of type []State)")
 		return
 	}
-	pushedSet := map[*ssa.Function]bool{}
-	bottom := map[*ssa.Function]bool{}
 	type site struct {
 		fn *ssa.Function
 		op stackOp
 	}
 	var pops []site
 	npush := 0
-	for _, fn := range fns {
-		for _, op := range stackOps(fn, "css.Parser", "state") {
+	for _, fn := range m.fns {
+		for _, op := range m.ops[fn] {
 			switch op.kind {
 			case "push":
-				t := thunkTarget(op.pushed)
-				if t == nil {
-					r.Unknown(fmt.Sprintf("%s pushes a state", fnLabel(fn)), op.in.Pos(), "appended state is not a method expression")
+				if m.pushTargets[op.in] == nil {
+					r.Unknown(fmt.Sprintf("%s pushes a state", fnLabel(fn)), op.in.Pos(), "the appended state cannot be resolved to state functions (method expressions, possibly chosen by a helper)")
 					continue
 				}
-				if fn.Name() == "NewParser" {
-					bottom[t] = true
-				} else {
-					pushedSet[t] = true
-					npush++
+				if fn != m.ctor {
+					npush += len(m.pushTargets[op.in])
 				}
 			case "pop":
 				pops = append(pops, site{fn, op})
 			default:
-				if fn.Name() != "NewParser" {
-					r.Fail(fmt.Sprintf("%s rewrites the state stack", fnLabel(fn)), op.in.Pos(), "css.Parser.state is assigned something that is neither append(state, f) nor state[:len-1]")
+				if fn != m.ctor {
+					r.Fail(fmt.Sprintf("%s rewrites the state stack", fnLabel(fn)), op.in.Pos(), "the state stack of css.Parser is assigned something that is neither append(stack, f) nor stack[:len-1]")
 				}
 			}
 		}
 	}
-	r.Floor("css state pushes", npush, 4)
-	for f := range bottom {
-		r.Check(!pushedSet[f], "bottom state "+f.Name()+" is never pushed", f.Pos(), "", "a bottom state function is also pushed: its unguarded handling of the end of input would run with a block open")
+	r.Floor("css state pushes", npush, 3)
+	for f := range m.bottom {
+		r.Check(!m.pushed[f], "bottom state "+f.Name()+" is never pushed", f.Pos(), "", "a bottom state function is also pushed: its unguarded handling of the end of input would run with a block open")
 	}
 	// pushed-set functions are only invoked through the stack
-	for _, fn := range fns {
+	for _, fn := range m.fns {
 		for _, b := range fn.Blocks {
 			for _, in := range b.Instrs {
 				if c, ok := in.(ssa.CallInstruction); ok {
-					if t := c.Common().StaticCallee(); t != nil && pushedSet[t] && fn.Synthetic == "" {
+					if t := c.Common().StaticCallee(); t != nil && m.pushed[t] && fn.Synthetic == "" {
 						r.Fail(fmt.Sprintf("%s calls pushed state %s directly", fnLabel(fn), t.Name()), c.Pos(), "a state function that pops itself is called directly: the pop would remove somebody else's state")
 					}
 				}
 			}
 		}
 	}
-	// every pop: in a pushed-set function (its own entry is on the stack above the bottom), or guarded by 1 < len(state)
-	for _, p := range pops {
-		key := fmt.Sprintf("%s pop", fnLabel(p.fn))
-		if pushedSet[p.fn] {
+	// every pop: on behalf of a pushed state function (its own entry is on the stack above the bottom), or guarded by 1 < len(stack)
+	for i, p := range pops {
+		key := fmt.Sprintf("css pop #%d", i+1)
+		if _, own := m.ctxOf(r, p.fn, 0); own {
 			// at most one pop per path
 			twice := false
 			pathFlow(p.fn, pstate{}, func(s pstate, in ssa.Instruction) pstate {
-				for _, o := range stackOps(p.fn, "css.Parser", "state") {
+				for _, o := range m.ops[p.fn] {
 					if o.in == in && o.kind == "pop" {
 						s.v[0] = clamp(s.v[0] + 1)
 					}
@@ -208,141 +364,215 @@ func stackCSS(r *core.Run) {
 			if f.NE {
 				continue
 			}
-			// len(state) - 2 >= 0
+			// len(stack) - 2 >= 0
 			if len(f.L.T) == 1 && f.L.C <= -2 {
 				for a, c := range f.L.T {
-					if c == 1 && strings.HasSuffix(a, ".state)") {
+					if c == 1 && strings.HasSuffix(a, "."+m.stack+")") {
 						guard = true
 					}
 				}
 			}
 		}
-		r.Check(guard, key+" (guarded by 1 < len(state))", p.op.in.Pos(), "", "the state stack is popped outside a pushed state function without the guard 1 < len(p.state): the bottom state can be removed and the next Next() indexes state[-1]")
+		r.Check(guard, key+" (guarded by 1 < len(stack))", p.op.in.Pos(), "", fmt.Sprintf("%s pops the state stack neither on behalf of a pushed state function nor under the guard 1 < len(stack): the bottom state can be removed and the next Next() indexes stack[-1]", fnLabel(p.fn)))
 	}
-	r.Floor("css state pops", len(pops), 5)
-	// Next indexes state[len-1] only
+	r.Floor("css state pops", len(pops), 3)
+	// Next indexes stack[len-1] only
 	if nx := r.Prog.SSAFunc("css", "Parser", "Next"); nx != nil {
 		ok := false
 		for _, b := range nx.Blocks {
 			for _, in := range b.Instrs {
-				if ia, isIA := in.(*ssa.IndexAddr); isIA && strings.HasSuffix(canon(ia.X), ".state") {
+				if ia, isIA := in.(*ssa.IndexAddr); isIA && strings.HasSuffix(canon(ia.X), "."+m.stack) {
 					l := linOf(ia.Index)
 					ok = len(l.T) == 1 && l.C == -1
 				}
 			}
 		}
-		r.Check(ok, "css.Parser.Next runs the top state", nx.Pos(), "", "Next does not dispatch on state[len(state)-1]")
+		r.Check(ok, "css.Parser.Next runs the top state", nx.Pos(), "", "Next does not dispatch on stack[len(stack)-1]")
 	}
 }
 
 // ---------------------------------------------------------------- R-BEGINEND
 
+// constAfter: the constant first results of every return reachable from `from`, resolving a returned parameter
+// through the given call site; ok=false if some return is not a constant.
+func constsAfter(from ssa.Instruction, site *ssa.Call) ([]int64, bool) {
+	return constsAfterR(nil, from, site, 0)
+}
+
+// constsAfterR: as constsAfter; a helper without results (it only pushes) is followed into its callers.
+func constsAfterR(r *core.Run, from ssa.Instruction, site *ssa.Call, depth int) ([]int64, bool) {
+	var out []int64
+	ok := true
+	forwardReturns(from, func(ret *ssa.Return) {
+		if len(ret.Results) == 0 {
+			if r == nil || depth > 2 {
+				ok = false
+				return
+			}
+			sites := callSitesOf(r, ret.Parent())
+			if len(sites) == 0 {
+				ok = false
+			}
+			for _, c := range sites {
+				ks, k := constsAfterR(r, c, nil, depth+1)
+				if !k {
+					ok = false
+				}
+				out = append(out, ks...)
+			}
+			return
+		}
+		v := ret.Results[0]
+		if p, isP := v.(*ssa.Parameter); isP && site != nil {
+			for i, q := range p.Parent().Params {
+				if q == p && i < len(site.Call.Args) {
+					v = site.Call.Args[i]
+				}
+			}
+		}
+		c, isC := v.(*ssa.Const)
+		if !isC || !ssaIntConst(c) {
+			ok = false
+			return
+		}
+		out = append(out, c.Int64())
+	})
+	return out, ok
+}
+
 func runBeginEnd(r *core.Run) {
 	pk := r.Prog.Pkg("css")
-	if pk == nil {
-		r.BrokenAnchor("package css")
+	m := cssModelOf(r)
+	if pk == nil || m.stack == "" {
+		r.BrokenAnchor("package css / state stack")
 		return
 	}
-	gt := map[string]int64{}
+	gtName := map[int64]string{}
 	for n, c := range constsOfType(pk, "GrammarType") {
-		gt[n], _ = constant.Int64Val(constant.ToInt(c))
+		v, _ := constant.Int64Val(constant.ToInt(c))
+		gtName[v] = n
 	}
-	beginOf := map[string]string{"parseAtRuleDeclarationList": "BeginAtRuleGrammar", "parseAtRuleRuleList": "BeginAtRuleGrammar", "parseAtRuleUnknown": "BeginAtRuleGrammar", "parseQualifiedRuleDeclarationList": "BeginRulesetGrammar"}
-	endOf := map[string]string{"parseAtRuleDeclarationList": "EndAtRuleGrammar", "parseAtRuleRuleList": "EndAtRuleGrammar", "parseAtRuleUnknown": "EndAtRuleGrammar", "parseQualifiedRuleDeclarationList": "EndRulesetGrammar"}
+	begin := map[*ssa.Function]string{} // pushed state function -> the Begin unit returned when it is pushed
 	n := 0
-	for _, fn := range cssParserFuncs(r) {
-		ops := stackOps(fn, "css.Parser", "state")
-		for _, op := range ops {
-			if fn.Name() == "NewParser" {
+	// pushes: every path from the push to a return yields one Begin unit
+	for _, fn := range m.fns {
+		if fn == m.ctor {
+			continue
+		}
+		for _, op := range m.ops[fn] {
+			if op.kind != "push" || m.pushTargets[op.in] == nil {
 				continue
 			}
-			switch op.kind {
-			case "push":
-				t := thunkTarget(op.pushed)
-				if t == nil {
-					continue
+			n++
+			key := fmt.Sprintf("css push #%d returns a Begin unit", n)
+			ks, ok := constsAfterR(r, op.in, nil, 0)
+			unit := ""
+			for _, k := range ks {
+				nm := gtName[k]
+				if !strings.HasPrefix(nm, "Begin") || unit != "" && unit != nm {
+					ok = false
 				}
-				n++
-				want, known := beginOf[t.Name()]
-				key := fmt.Sprintf("%s push %s", fnLabel(fn), t.Name())
-				if !known {
-					r.Unknown(key, op.in.Pos(), "pushed state function has no known Begin unit")
-					continue
-				}
-				// every path from the push to a return returns the Begin constant without touching the stack again
-				good := true
-				why := ""
-				forwardReturns(op.in, func(ret *ssa.Return) {
-					c, isC := ret.Results[0].(*ssa.Const)
-					if !isC || c.Int64() != gt[want] {
-						good, why = false, fmt.Sprintf("return at %s does not yield %s", r.Prog.Position(ret.Pos()), want)
-					}
-				})
-				r.Check(good, key, op.in.Pos(), "returns "+want, "after pushing "+t.Name()+" "+why+": the consumer's nesting depth and the parser's stack disagree")
-			case "pop":
-				n++
-				key := fmt.Sprintf("%s pop", fnLabel(fn))
-				want, isPushed := endOf[fn.Name()]
-				if !isPushed {
-					// guarded pops outside state functions are error recoveries: they must record an error
-					// every path from the pop to a return stores p.err
-					errSet := true
-					seen := map[*ssa.BasicBlock]bool{}
-					var walk func(b *ssa.BasicBlock)
-					walk = func(b *ssa.BasicBlock) {
-						if seen[b] {
-							return
-						}
-						seen[b] = true
-						for _, in := range b.Instrs {
-							if st, ok := in.(*ssa.Store); ok && strings.HasSuffix(canon(st.Addr), ".err") {
-								return
-							}
-							if _, ok := in.(*ssa.Return); ok {
-								errSet = false
-								return
-							}
-						}
-						for _, s := range b.Succs {
-							walk(s)
-						}
-					}
-					walk(op.in.Block())
-					r.Check(errSet, key+" (error recovery records a parse error)", op.in.Pos(), "", "the stack is popped outside a state function without recording a parse error in the same step")
-					continue
-				}
-				good := true
-				why := ""
-				forwardReturns(op.in, func(ret *ssa.Return) {
-					c, isC := ret.Results[0].(*ssa.Const)
-					if !isC || c.Int64() != gt[want] {
-						good, why = false, fmt.Sprintf("return at %s does not yield %s", r.Prog.Position(ret.Pos()), want)
-					}
-				})
-				r.Check(good, key+" returns "+want, op.in.Pos(), "", "after popping its own state "+why+": a Begin unit is left without its End unit")
+				unit = nm
 			}
-		}
-		// a pushed state function returns its End unit only after popping
-		if want, ok := endOf[fn.Name()]; ok {
-			for _, b := range fn.Blocks {
-				ret, isRet := lastInstr(b).(*ssa.Return)
-				if !isRet {
-					continue
-				}
-				if c, isC := ret.Results[0].(*ssa.Const); isC && c.Int64() == gt[want] {
-					popped := false
-					for _, op := range ops {
-						if op.kind == "pop" && (op.in.Block() == b || op.in.Block().Dominates(b)) {
-							popped = true
-						}
+			r.Check(ok && unit != "", key, op.in.Pos(), "returns "+unit, fmt.Sprintf("after pushing a state in %s some return does not yield one Begin… unit: the consumer's nesting depth and the parser's stack disagree", fnLabel(fn)))
+			if ok {
+				for _, t := range m.pushTargets[op.in] {
+					if prev, has := begin[t]; has && prev != unit {
+						r.Fail("Begin unit of "+t.Name(), op.in.Pos(), fmt.Sprintf("%s is pushed with %s here and with %s elsewhere", t.Name(), unit, prev))
 					}
-					n++
-					r.Check(popped, fmt.Sprintf("%s returns %s only after popping", fnLabel(fn), want), ret.Pos(), "", "an End unit is emitted without popping the state: the same block would be closed again")
+					begin[t] = unit
 				}
 			}
 		}
 	}
-	r.Floor("push/pop pairing sites", n, 12)
+	// pops
+	np := 0
+	for _, fn := range m.fns {
+		for _, op := range m.ops[fn] {
+			if op.kind != "pop" {
+				continue
+			}
+			np++
+			n++
+			key := fmt.Sprintf("css pop #%d", np)
+			ctx, own := m.ctxOf(r, fn, 0)
+			if !own {
+				// guarded pops outside state functions are error recoveries: every path from the pop to a return records an error
+				errSet := true
+				seen := map[*ssa.BasicBlock]bool{}
+				var walk func(b *ssa.BasicBlock)
+				walk = func(b *ssa.BasicBlock) {
+					if seen[b] {
+						return
+					}
+					seen[b] = true
+					for _, in := range b.Instrs {
+						if st, ok := in.(*ssa.Store); ok && m.errField != "" && strings.HasSuffix(canon(st.Addr), "."+m.errField) {
+							return
+						}
+						if _, ok := in.(*ssa.Return); ok {
+							errSet = false
+							return
+						}
+					}
+					for _, s := range b.Succs {
+						walk(s)
+					}
+				}
+				walk(op.in.Block())
+				r.Check(errSet, key+" (error recovery records a parse error)", op.in.Pos(), "", "the stack is popped outside a state function without recording a parse error in the same step")
+				continue
+			}
+			// on behalf of each state function in ctx: the returns after the pop yield the End unit matching its Begin unit
+			good, why := true, ""
+			check := func(t *ssa.Function, site *ssa.Call) {
+				want := "End" + strings.TrimPrefix(begin[t], "Begin")
+				ks, ok := constsAfterR(r, op.in, site, 0)
+				if !ok {
+					good, why = false, "a return after the pop does not yield a constant unit"
+				}
+				for _, k := range ks {
+					if gtName[k] != want {
+						good, why = false, fmt.Sprintf("on behalf of %s (pushed with %s) a return after the pop yields %s, not %s", t.Name(), begin[t], gtName[k], want)
+					}
+				}
+			}
+			if m.pushed[fn] {
+				check(fn, nil)
+			} else {
+				for _, c := range callSitesOf(r, fn) {
+					cs, _ := m.ctxOf(r, c.Parent(), 0)
+					for t := range cs {
+						check(t, c)
+					}
+				}
+			}
+			_ = ctx
+			r.Check(good, key+" returns the matching End unit", op.in.Pos(), "", "after popping a block's state "+why+": a Begin unit is left without its End unit")
+		}
+	}
+	// a pushed state function returns an End unit only after popping (directly or in the helper it returns from)
+	for t := range m.pushed {
+		for _, b := range t.Blocks {
+			ret, isRet := lastInstr(b).(*ssa.Return)
+			if !isRet {
+				continue
+			}
+			c, isC := ret.Results[0].(*ssa.Const)
+			if !isC || !ssaIntConst(c) || !strings.HasPrefix(gtName[c.Int64()], "End") {
+				continue
+			}
+			popped := false
+			for _, op := range m.ops[t] {
+				if op.kind == "pop" && (op.in.Block() == b || op.in.Block().Dominates(b)) {
+					popped = true
+				}
+			}
+			n++
+			r.Check(popped, fmt.Sprintf("%s returns %s only after popping", fnLabel(t), gtName[c.Int64()]), ret.Pos(), "", "an End unit is emitted without popping the state: the same block would be closed again")
+		}
+	}
+	r.Floor("push/pop pairing sites", n, 8)
 }
 
 // forwardReturns visits every Return reachable from instruction `from`.
